@@ -277,6 +277,14 @@ class Runner:
                 elif lr == "series":
                     idx = list(range(50, 50 + len(ts)))[::-1]
                     ret = st.layer(pd.Series(starts, index=idx), pd.Series(ends, index=idx[::-1]), np.array(vals))
+                elif lr == "series_offset":
+                    # Series carrying a non-default RangeIndex (slices of longer Series / frames): still positional
+                    st_ser = pd.Series([starts[0]] + starts).iloc[1:]
+                    if len(ts) % 2:
+                        en_arg = ends
+                    else:
+                        en_arg = pd.DataFrame({"e": ends + ends})["e"].iloc[len(ends):]
+                    ret = st.layer(st_ser, en_arg, np.array(vals))
                 elif lr == "ndarray" and all(x is not None for x in starts + ends):
                     ret = st.layer(np.array(starts), np.array(ends), np.array(vals))
                 elif lr == "tuple":
